@@ -24,6 +24,7 @@ package c08
 import (
 	"bufio"
 	"bytes"
+	"crypto/sha256"
 	"encoding/hex"
 	"fmt"
 	"os"
@@ -536,6 +537,50 @@ func TestLisk32TextExhaustive(t *testing.T) {
 		}
 		evid.R.Case("lisk32text|exh|"+valid, true, func() any { return map[string]any{"part": "f", "address": fmt.Sprintf("%x", addr), "text": valid} }, "lisk32_text_boundary")
 	}
+	// Length extension (added after seeded change C08-r: "length >= 41" instead of "== 41"). The Lisk32 checksum, like bech32's, survives
+	// the insertion of zero symbols ('z') before a final symbol of value 1 ('x'): the fixed length is the only protection, and only one
+	// address in 32 ends that way. Derived addresses until enough of them end in every alphabet character; 1-3 copies of EVERY alphabet
+	// character inserted before each of the last 7 characters; the reference says "41 characters or invalid".
+	var ext int64
+	if shard == 0 {
+		perLast := map[byte]int{}
+		want := 3
+		if evid.Thorough() {
+			want = 40
+		}
+		for i := 0; i < 200000 && len(perLast) < 32*1 || func() bool {
+			for _, c := range []byte(refAlphabet) {
+				if perLast[c] < want {
+					return i < 200000
+				}
+			}
+			return false
+		}(); i++ {
+			h := sha256.Sum256([]byte(fmt.Sprintf("c08-length-extension-%d", i)))
+			addr := h[:20]
+			valid := refEncode(addr)
+			last := valid[40]
+			if perLast[last] >= want {
+				continue
+			}
+			perLast[last]++
+			for pos := 34; pos <= 41; pos++ {
+				for _, c := range []byte(refAlphabet) {
+					for k := 1; k <= 3; k++ {
+						text := valid[:pos] + strings.Repeat(string(c), k) + valid[pos:]
+						acc, _, problem := lisk32TextProblem(text, false)
+						if problem != "" || acc {
+							pth := evid.R.FailCase("lisk32text", map[string]any{"kind": "lisk32_text", "hex": hex.EncodeToString([]byte(text))})
+							t.Fatalf("C08(f) Lisk32 text [length_extension] accepted=%v %s\n  text = %q (%d characters)\n  derived from the valid text %q (address %x) by inserting %d x %q at position %d\n  case written to %s",
+								acc, problem, text, len(text), valid, addr, k, string(c), pos, pth)
+						}
+						ext++
+					}
+				}
+			}
+		}
+	}
+	evid.R.Count(ext, "lisk32_text_length_extension_exhaustive")
 	evid.R.Count(flips, "lisk32_text_single_bitflip_exhaustive")
 	evid.R.Count(bytesAll, "lisk32_text_single_byte_exhaustive")
 	evid.R.Label("lisk32_text_exhaustive:accepted(prefix_flips+identity_bytes)", accepted)
